@@ -929,8 +929,9 @@ def generate_slices(rng):
       w = hi - lo
       readable = d.readable_from('')
       src = [r for r in readable if r[0] in (ins[0].idx, ins[1].idx)]
-      if rng.random() < 0.3:
-        g, l0, w0 = rng.choice([r for r in src if r[2] >= w])
+      wide_enough = [r for r in src if r[2] >= w]
+      if rng.random() < 0.3 and wide_enough:
+        g, l0, w0 = rng.choice(wide_enough)
         add_net(d, (t.idx, lo, w), (g, l0 + rng.randint(0, w0 - w), w), style=1)
       else:
         bid = d.new_id()
